@@ -183,6 +183,7 @@ def _gen_case_(rng, tier, g, big):
         inner_ms = [rng.choice([None, True, False]) for _ in tables]
     return {'prop': PROP, 'op': op, 'tables': tables, 'perms': perms,
             'eqnum': eqnum, 'inner_ms': inner_ms,
+            'perm_short': perms is not None and rng.random() < 0.5,
             'sweep': sweep, 'inner': inner,
             'key': key, 'reverse': rng.random() < 0.35,
             'buffersize': rng.choice([255, 256, 257, 258, 300, n0 - 1, n0])
@@ -209,7 +210,12 @@ def _tables(case):
             nt = []
             for r in t:
                 full = list(r) + [None] * (len(p) - len(r))
-                nt.append([full[i] for i in p])
+                row = [full[i] for i in p]
+                if case.get('perm_short') and len(r) < len(p):
+                    # a short row stays short: it has the first cells of
+                    # its own table's (permuted) field order
+                    row = row[:len(r)]
+                nt.append(row)
             out.append(nt)
         tables = out
     return tables
